@@ -432,3 +432,17 @@ func H_C03_required_last() {
 	vCheckAgainstRef("C03 required after other rules", err, r)
 	vReach("end")
 }
+
+// a missing required key among unrelated extra keys (more input keys than rule keys)
+func H_C03_missing_among_extras() {
+	rm := NewRule().Set("k", "required|need k").Set("j", "r1")
+	switch vndChoice("entry", 3) {
+	case 0:
+		vRunMap("C03 Map(missing key, extra keys)", map[string]string{"x": vStr("x"), "y": "1", "z": "2"}, rm)
+	case 1:
+		vRunMap("C03 Map([]map, missing key, extra keys)", []map[string]string{{"x": "1", "y": "2", "j": vStr("j")}, {"k": vStr("k")}}, rm)
+	case 2:
+		w := vPlainText("w", 1)
+		vRunUrl("C03 Url(missing key, extra keys)", "h?trace="+w+"&utm=1&x=2", []string{"trace", "utm", "x"}, []string{w, "1", "2"}, rm)
+	}
+}
